@@ -8,6 +8,7 @@ import Pms.Props.C04
 #print axioms Pms.Sq.C04_spec_lookup
 #print axioms Pms.Sq.C04_table
 #print axioms Pms.Sq.C04_sumrule
+#print axioms Pms.Sq.C04_sumrule_returned
 #print axioms Pms.Sq.C04_diag_nonneg
 #print axioms Pms.Sq.C04_group
 #print axioms Pms.Sq.C04_unique
